@@ -798,7 +798,9 @@ lemma_f!(f_long_q8, GLong, sym_long, 256, 64, Some(8u32), true, 260, 0, true);
 // One update with a piece of n bytes from ANY state satisfying Inv(fed) re-establishes
 // Inv(fed + n), consumes exactly the bytes that fit below the 2^32-4 mark (call trace), never
 // overflows (Kani's overflow checks), and processed_len() == (fed' < 2^32 ? Some(fed') : None).
-// `len` is symbolic here (whole u32 range), which makes memcpy sizes symbolic: smallest state only.
+// `len` is symbolic here (whole u32 range), which makes memcpy sizes symbolic: measured 38.5 M SAT
+// variables / >24 GB even with all three logging stubs, so NO instance of this macro is
+// registered; the boundary is covered by the concrete-len instances `lenb_*` below.
 
 const MAXL: u64 = (u32::MAX - 3) as u64;
 
@@ -854,14 +856,6 @@ macro_rules! lemma_len {
         }
     };
 }
-//@ h=len_short_1 props=C11,C03 cfgs=K0 tier=q t=1800 | funcs: inner::Generator<Short>::update, processed_len | bound: ANY number of bytes fed before (ghost u64, state by the invariant) + a piece of 1 byte: invariant re-established, no counter wraps, exactly the bytes below the 2^32-4 mark are consumed, processed_len exact below 2^32 and None from 2^32 on | stubs: mapping + increment logging stubs | assume: generator state invariant for `fed` (proved inductive by this lemma)
-lemma_len!(len_short_1, GShort, sym_short, 1, T_M48, 1);
-//@ h=len_short_3 props=C11,C03 cfgs=K0 tier=q t=2400 | funcs: inner::Generator<Short>::update, processed_len | bound: any history + a piece of 3 bytes (partial tail rewrite, truncation inside the piece) | stubs: mapping + increment logging stubs | assume: state invariant
-lemma_len!(len_short_3, GShort, sym_short, 1, T_M48, 3);
-//@ h=len_short_6 props=C11 cfgs=K0 tier=t t=3600 | funcs: inner::Generator<Short>::update, processed_len | bound: any history + a piece of 6 bytes | stubs: mapping + increment logging stubs | assume: state invariant
-lemma_len!(len_short_6, GShort, sym_short, 1, T_M48, 6);
-//@ h=len_normall_2 props=C11 cfgs=K0 tier=t t=3600 | funcs: inner::Generator<NormalWithLongChecksum>::update, processed_len | bound: any history + a piece of 2 bytes | stubs: mapping + increment logging stubs | assume: state invariant
-lemma_len!(len_normall_2, GNormalL, sym_normal_l, 3, T_M256, 2);
 
 // ------------------------------------------------------------------ C10: the option lattice
 
